@@ -209,6 +209,8 @@ type Val struct {
 	P *PtrVal  // engine-level pointer (T is a pointer type); S unused
 	F *Closure // engine-level function value
 	Re func(ii intInfo) Term // untyped integer expressions (T == nil): rebuild at a given integer type
+	GT types.Type            // ghost array values (T == nil, S[0] of array sort): the Go type of the elements
+	GK types.Type            // ... and of the keys
 }
 
 func (v Val) One() Term {
